@@ -14,7 +14,7 @@ pub fn canon<S: BDDSymbol>(tt: u64, syms: &[S]) -> Rc<BDD<S>> {
         }
         let t = go(tt, syms, level + 1, fixed | (1 << level));
         let e = go(tt, syms, level + 1, fixed);
-        if t == e {
+        if same_small(&t, &e) {
             t
         } else {
             Rc::new(BDD::Choice(t, syms[level].clone(), e))
@@ -61,7 +61,7 @@ pub fn is_ordered_reduced<S: BDDSymbol>(b: &BDD<S>) -> Result<(), String> {
                         return Err(format!("not ordered: {} above {}", p, v));
                     }
                 }
-                if t.as_ref() == f.as_ref() {
+                if same_small(t.as_ref(), f.as_ref()) {
                     return Err(format!("not reduced: redundant test on {}", v));
                 }
                 go(t, Some(v))?;
@@ -164,4 +164,14 @@ pub fn same_by<S: BDDSymbol>(a: &BDD<S>, b: &BDD<S>, eq: &dyn Fn(&S, &S) -> bool
         }
     }
     true
+}
+
+/// recursive structural equality for small diagrams (tree recursion; use `same_by` for deep or
+/// heavily shared ones); independent of the subject's `PartialEq for BDD`
+pub fn same_small<S: BDDSymbol>(a: &BDD<S>, b: &BDD<S>) -> bool {
+    match (a, b) {
+        (BDD::True, BDD::True) | (BDD::False, BDD::False) => true,
+        (BDD::Choice(t1, v1, f1), BDD::Choice(t2, v2, f2)) => v1 == v2 && (Rc::ptr_eq(t1, t2) || same_small(t1, t2)) && (Rc::ptr_eq(f1, f2) || same_small(f1, f2)),
+        _ => false,
+    }
 }
